@@ -130,7 +130,7 @@ fn raw_strategy() -> impl Strategy<Value = Case> {
     ];
     let sep = prop_oneof![8 => Just(" ".to_string()), 1 => Just("  ".to_string()), 1 => Just("\t".to_string()), 1 => Just("".to_string())];
     let line = prop_oneof![
-        10 => (method, sep.clone(), proptest::option::weighted(0.9, target_strategy()), sep, proptest::option::weighted(0.9, version), prop::sample::select(vec!["", "", "", " ", "\t"]))
+        10 => (method, sep.clone(), proptest::option::weighted(0.9, target_strategy()), sep, proptest::option::weighted(0.9, version), prop::sample::select(vec!["", "", "", "", " ", "\t", " x", " HTTP/1.1", " junk more"]))
             .prop_map(|(m, s1, t, s2, v, tail)| {
                 let mut l = m;
                 if let Some(t) = t { l.push_str(&s1); l.push_str(&t); }
@@ -256,6 +256,8 @@ pub fn eval(ctx: &Ctx, case: &Case) -> Verdict {
                         if t.is_empty() { Expect::Err }
                         else if fields.len() < 3 { Expect::Err }
                         // an empty field (two adjacent spaces; the unit tests pin "GET  HTTP/1.1" as accepted with an empty target), more than three fields, other whitespace: outcome not fixed
+                        // more than three clean fields: what follows the target is not a version ("HTTP/1.1 junk" names no supported version)
+                        else if !padded && !ws_inside && fields.len() > 3 && fields.iter().all(|f| !f.is_empty()) { Expect::Err }
                         else if padded || ws_inside || fields.len() > 3 || fields.iter().any(|f| f.is_empty()) { Expect::Any }
                         else {
                             let (m, t, v) = (fields[0], fields[1], fields[2]);
